@@ -117,14 +117,23 @@ def families_for(n, exact_only=False, rough=True):
 
 @st.composite
 def problem_recipe(draw, dims=(1, 2, 3, 4, 5), exact_only=False, families=None, densities=(10,), styles=False,
-                   offsets=False):
+                   offsets=False, huge=False):
     n = draw(st.sampled_from(list(dims)))
     fams = families if families is not None else families_for(n, exact_only)
     fams = [f for f in fams if (f != "pwl1" or n == 1)]
     box = draw(boxes(n))
     rec = {"n": n, "lower": box["lower"], "upper": box["upper"],
            "obj": draw(objective(n, fams)), "density": draw(st.sampled_from(list(densities)))}
-    if offsets and draw(st.integers(0, 3)) == 0:
+    if huge and rec["obj"]["family"] in ob.EXACT and draw(st.integers(0, 15)) == 3:
+        # finite values of enormous magnitude (a penalty scale, physical units): the largest |value| over the box is
+        # 1e150..1e305, so that squares of values and of slopes overflow while every value and difference is finite
+        import math
+        u0 = [0.5] * n
+        bound = abs(ob.evaluate(rec["obj"], u0)) + ob.lipschitz(rec["obj"]) * math.sqrt(n) / 2.0
+        if 1e-100 < bound < 1e100:
+            rec["obj"] = ob.scaled(rec["obj"], float(10.0 ** draw(st.integers(150, 305))) / bound)
+            rec["huge"] = True
+    if offsets and not rec.get("huge") and draw(st.integers(0, 3)) == 0:
         # a level that is large compared with the variation of the objective (either sign)
         rec["obj"] = dict(rec["obj"], offset=draw(st.sampled_from([-1.0, 1.0])) * float(10.0 ** draw(st.integers(2, 7))))
     if styles:
